@@ -8,11 +8,12 @@ from ..findings import still_fails
 
 ID = "C05"
 LEAN_MODULES = ["PycModel.Properties.C05"]
-NAMESPACES = ["PycModel.C05", "PycModel.SwitchRefine", "PycModel.Tables"]
+NAMESPACES = ["PycModel.C05", "PycModel.SwitchRefine", "PycModel.StmtSkel", "PycModel.Tables"]
 REQUIRED_THEOREMS = ["PycModel.C05.regroup_no_labels", "PycModel.C05.regroupGo_prefix",
                      "PycModel.C05.fixSwitchLoop_eq_regroup", "PycModel.C05.fixSwitchCases_eq_spec",
                      "PycModel.C05.fixSwitchCases_empty_block", "PycModel.C05.labeled_statement_shape",
                      "PycModel.SwitchRefine.peel_extract", "PycModel.SwitchRefine.loop_refines",
+                     "PycModel.C05.statements_nest_as_the_grammar_says", "PycModel.StmtSkel.parse_stmt", "PycModel.StmtSkel.all_s",
                      "PycModel.Tables.model_starts_statement"]
 LEVEL = "proof"
 TRUSTED = ["Spec/Stmt.lean: our reading of C99 6.8 and of the documented AST; the `;` after a block-level _Static_assert is an EmptyStatement (pinned by the repository's own test_static_assert)"]
